@@ -101,11 +101,12 @@ macro_rules! cover {
     }};
 }
 
-/// Harness-level assertion; the `VERIF:` prefix is what the runner keys on.
+/// Harness-level assertion.  The runner recognises harness assertions by their
+/// *location* (this crate's `src/`), library panics by theirs (`/repo`, core).
 #[macro_export]
 macro_rules! vassert {
     ($c:expr, $m:literal) => {
-        assert!($c, concat!("VERIF: ", $m))
+        assert!($c, $m)
     };
 }
 
@@ -113,6 +114,6 @@ macro_rules! vassert {
 #[macro_export]
 macro_rules! noreturn {
     ($m:literal) => {
-        panic!(concat!("VERIF: NORETURN ", $m))
+        panic!($m)
     };
 }
